@@ -190,12 +190,22 @@ class Trialer:
         self.dep._restore.append((tu, "NamedTemporaryFile", orig))
 
     def _listing(self):
+        """HDF5 files in TMPDIR / user dir: by name (".hdf5"/".h5" anywhere in it, e.g. "x.hdf5.part") or by
+        the HDF5 signature.  Third-party scratch files (numba / pytensor) match neither."""
         out = set()
         for d in (self.w.tmpdir, self.w.userdir):
             for root, dirs, files in os.walk(d):
                 for f in files:
-                    if f.endswith((".hdf5", ".h5", ".fits")):
-                        out.add(os.path.join(root, f))
+                    full = os.path.join(root, f)
+                    if ".hdf5" in f or ".h5" in f or f.endswith(".fits"):
+                        out.add(full)
+                        continue
+                    try:
+                        with open(full, "rb") as fh:
+                            if fh.read(8) == b"\x89HDF\r\n\x1a\n":
+                                out.add(full)
+                    except OSError:
+                        pass
         return out
 
     def fresh(self, rng=None, faults=None):
